@@ -44,6 +44,7 @@ def step (st : State) (line : String) : State × String :=
   | "TODEF" :: args => (st, handleToDef args impl)
   | "REF9" :: args => (st, handleEncV "9" st args impl)
   | "RT" :: args => (st, handleRoundTrip st args impl)
+  | "REC" :: args => (st, handleRec st args impl)
   | "BPE" :: args => (st, handlePiece st args impl)
   | "UNI" :: args => (st, handlePiece st args impl)
   | "WP" :: args => (st, handlePiece st args impl)
